@@ -93,13 +93,27 @@ theorem fracPart_err {v : List Nat} {n : Nat} {r : List Nat} {e : ErrRel}
     (h : fracPart v n r = .error e) : e.kind ≠ .panic ∧ e.off = n ∧ e.reached = n := by
   fun_cases fracPart v n r <;> simp_all [fracPart] <;> subst h <;> simp
 
+theorem expPartBody_ok {v : List Nat} {n : Nat} {r : List Nat} {v' : List Nat} {n' : Nat}
+    (h : expPartBody v n r = .ok (v', n')) : n ≤ n' ∧ n' ≤ n + r.length := by
+  fun_cases expPartBody v n r <;> simp_all [expPartBody] <;> grind [radixRun_le]
+
+theorem expPartBody_err {v : List Nat} {n : Nat} {r : List Nat} {e : ErrRel}
+    (h : expPartBody v n r = .error e) : e.kind ≠ .panic ∧ e.off = e.reached ∧ n ≤ e.reached ∧ e.reached ≤ n + r.length := by
+  fun_cases expPartBody v n r <;> simp_all [expPartBody] <;> subst h <;> simp
+
 theorem expPart_ok {v : List Nat} {n : Nat} {r : List Nat} {v' : List Nat} {n' : Nat}
     (h : expPart v n r = .ok (v', n')) : n ≤ n' ∧ n' ≤ n + r.length := by
-  fun_cases expPart v n r <;> simp_all [expPart] <;> grind [radixRun_le]
+  unfold expPart at h
+  split at h
+  · exact expPartBody_ok h
+  · simp at h; omega
 
 theorem expPart_err {v : List Nat} {n : Nat} {r : List Nat} {e : ErrRel}
     (h : expPart v n r = .error e) : e.kind ≠ .panic ∧ e.off = e.reached ∧ n ≤ e.reached ∧ e.reached ≤ n + r.length := by
-  fun_cases expPart v n r <;> simp_all [expPart] <;> subst h <;> simp
+  unfold expPart at h
+  split at h
+  · exact expPartBody_err h
+  · simp at h
 
 theorem intTok_ok (z : Bool) (ds : List Nat) (n : Nat) {inp : List Nat} (h1 : 1 ≤ n) (h2 : n ≤ inp.length)
     (hd : ds ≠ []) : SubOk inp (intTok z ds n) := by
